@@ -36,6 +36,35 @@ KNOWN_HELPERS = {
     "_resolve_hash_list_references", "_root_media_hash_xml_element", "_update_child_history_mapping", "_validate_new_hash_list",
     "_write_xml_element_to_file", "_write_xml_string_to_file",
 }
+# public functions / methods of that tree (by simple name): never inlined either. Any function that is in neither set was
+# introduced by a later restructuring and is a candidate.
+KNOWN_PUBLIC = {
+    "add_detected_failure_for_format", "append_child_history", "append_directory_hashes", "append_file_hash", "append_generation",
+    "append_hash", "append_hash_entry", "append_hash_list", "append_hash_list_reference", "append_multiple_format_directory_hashes",
+    "append_multiple_format_file_hashes", "bytes_for_hash_string", "bytes_from_string_digest", "commit", "commit_session",
+    "commit_session_for_collection", "convert_local_path_to_posix", "convert_posix_to_local_path", "create", "create_collection_at_path",
+    "create_dummy_file_structure", "create_dummy_folder", "create_for_folder_subcommand", "create_for_single_files_subcommand",
+    "datetime_isostring", "datetime_now_filename_string", "datetime_now_isostring", "datetime_now_isostring_with_microseconds", "debug",
+    "default_ignore_list", "diff", "diff_entire_folder_against_full_history_subcommand", "error", "fatal", "final_content_hash_str",
+    "final_structure_hash_str", "find_directory_hash_entries_for_path", "find_existing_hash_formats_for_path",
+    "find_first_hash_entry_for_path", "find_hash_entry_for_format", "find_history_for_path", "find_media_hash_for_path",
+    "find_or_create_media_hash_for_path", "find_original_hash_entry_for_path", "flatten", "flatten_history", "generate_reference_hash",
+    "get_file_name", "get_path_spec", "get_pattern_list", "get_relative_file_path", "get_root_path", "hash", "hash_data", "hash_file",
+    "hash_list_with_file_name", "hash_of_hash_list", "hashlib_type", "info", "info_for_entire_history", "info_for_single_file",
+    "latest_generation_number", "latest_ignore_patterns", "list_commands", "load_from_packing_list_path", "load_from_path", "log",
+    "log_child_histories", "log_hash_entry", "matches_prefixes", "mhldebugtool_cli", "mhldevtool_cli", "mhltool_cli",
+    "multiple_format_hash_data", "multiple_format_hash_file", "needs_update", "new_hasher_for_hash_type", "parse",
+    "post_order_lexicographic", "readchainfile", "readmhlfile", "readmhlhistory", "renamed_path_with_previous_path", "run",
+    "seal_file_path", "set_of_file_paths", "set_patterns", "string_digest", "summary", "test_for_missing_files", "update", "verbose",
+    "verify", "verify_directory_hash_subcommand", "verify_entire_folder", "walk_child_histories", "write_chain", "write_hash_list",
+    "write_new_generation", "xsd_schema_check",
+}
+
+
+def _is_candidate_name(nm: str) -> bool:
+    if nm.startswith("__") and nm.endswith("__"):
+        return False
+    return nm not in KNOWN_HELPERS and nm not in KNOWN_PUBLIC
 
 
 class _Refuse(Exception):
@@ -205,7 +234,7 @@ class Inliner:
         q = quals[0]
         h0 = self.p0.funcs[q]
         nm = h0.name
-        if h0.module.name != self.m.name or q not in self.pristine or not nm.startswith("_") or nm.endswith("__") or nm in KNOWN_HELPERS or q in stack:
+        if getattr(call, "_foreign", False) or h0.module.name != self.m.name or q not in self.pristine or not _is_candidate_name(nm) or h0.outer is not None or q in stack:
             return None
         hdef = self.pristine[q]
         body = hdef.body
@@ -278,6 +307,8 @@ class Inliner:
             call, ctx = s.test.operand, "ifnot"
         elif isinstance(s, ast.For) and isinstance(s.iter, ast.Call):
             call, ctx = s.iter, "for"
+        elif isinstance(s, ast.With) and len(s.items) == 1 and isinstance(s.items[0].context_expr, ast.Call):
+            call, ctx = s.items[0].context_expr, "with"
         if call is None:
             hoisted = self.hoist_nested(s, host, stack, depth)
             return hoisted
@@ -292,17 +323,49 @@ class Inliner:
             return None
 
     def _eligible_stmt_helper(self, call):
-        tg = self.res.get(_pos(call)) if hasattr(call, "lineno") else None
+        if getattr(call, "_foreign", False) or not hasattr(call, "lineno"):
+            return None
+        tg = self.res.get(_pos(call))
         if not tg:
             return None
         quals = [t for t in tg if t in self.p0.funcs]
         if len(quals) != 1 or len([t for t in tg if not t.startswith("class:")]) != 1:
             return None
-        h0 = self.p0.funcs[quals[0]]
-        nm = h0.name
-        if h0.module.name != self.m.name or quals[0] not in self.pristine or not nm.startswith("_") or nm.endswith("__") or nm in KNOWN_HELPERS:
+        q = quals[0]
+        h0 = self.p0.funcs[q]
+        if not _is_candidate_name(h0.name) or h0.outer is not None:
             return None
-        return quals[0]
+        if h0.module.name == self.m.name:
+            return q if q in self.pristine else None
+        # a helper of another module: only if every global name its body uses means the same thing in this module
+        if h0.cls is not None:
+            return None
+        if q not in self.pristine:
+            if not self._foreign_compatible(h0):
+                return None
+            fn = copy.deepcopy(h0.node)
+            for n in ast.walk(fn):
+                n.__dict__.pop("_parent", None)
+                n._foreign = True  # type: ignore[attr-defined]
+            self.pristine[q] = fn
+        return q
+
+    def _foreign_compatible(self, h0) -> bool:
+        hm, me = h0.module, self.p0.modules.get(self.m.name)
+        if me is None:
+            return False
+        bound = _names_bound(h0.node)
+        builtins_ = set(dir(__builtins__)) if not isinstance(__builtins__, dict) else set(__builtins__)
+        for n in [x for st in h0.node.body for x in ast.walk(st)]:
+            if isinstance(n, ast.Name) and n.id not in bound and n.id not in builtins_:
+                a, b = hm.imports.get(n.id), me.imports.get(n.id)
+                if a is not None and a == b:
+                    continue
+                # a module-level definition of the helper's module, imported under the same name here
+                if a is None and b == hm.name + "." + n.id:
+                    continue
+                return False
+        return True
 
     def hoist_nested(self, s, host, stack, depth):
         """`recv.m(a, helper(..))` / `x = f(helper(..))`: the helper call is an argument of the statement's top-level call and everything
@@ -347,8 +410,11 @@ class Inliner:
     # ------------------------------------------------------------------ expansion
     def expand(self, s, call, ctx, q, h0, host, stack, depth):
         hdef = copy.deepcopy(self.pristine[q])
-        if any(d for d in h0.decorators if not d.endswith(("staticmethod", "classmethod"))):
+        is_cm = any(d in ("contextlib.contextmanager", "contextmanager") for d in h0.decorators)
+        if any(d for d in h0.decorators if not d.endswith(("staticmethod", "classmethod")) and d not in ("contextlib.contextmanager", "contextmanager")):
             raise _Refuse("decorated")
+        if is_cm != (ctx == "with"):
+            raise _Refuse("context manager only in a with statement (and vice versa)")
         a = hdef.args
         if a.vararg or a.kwarg:
             raise _Refuse("*args/**kwargs")
@@ -359,10 +425,12 @@ class Inliner:
         is_gen = _has(hdef.body, (ast.Yield, ast.YieldFrom))
         if ctx == "for" and not is_gen:
             ctx = "foriter"  # a plain function whose result is iterated: inline it in front of the loop
-        if is_gen != (ctx == "for"):
+        if is_gen != (ctx in ("for", "with")):
             raise _Refuse("generator only as a for-iterable")
         for t in [n for st in hdef.body for n in ast.walk(st) if isinstance(n, ast.Try)]:
             if _has(t.body + t.orelse + t.finalbody + [x for h in t.handlers for x in h.body], (ast.Return, ast.Yield, ast.YieldFrom)):
+                if ctx == "with" and not t.handlers and not t.orelse and not _has(t.finalbody, (ast.Return, ast.Yield, ast.YieldFrom)) and not _has(t.body, ast.Return):
+                    continue  # try: yield ... finally: ...  of a context manager
                 raise _Refuse("return/yield inside try")
         body = hdef.body
         if body and isinstance(body[0], ast.Expr) and isinstance(body[0].value, ast.Constant) and isinstance(body[0].value.value, str):
@@ -492,6 +560,8 @@ class Inliner:
         # ---- body
         if ctx == "for":
             new = pre + self.expand_generator(s, body, call)
+        elif ctx == "with":
+            new = pre + self.expand_context_manager(s, body, call)
         elif ctx in ("if", "ifnot") and self._bool_continuation_ok(body):
             # every return is a boolean constant outside loops: the branches of the host's `if` move to the return sites
             t_branch, f_branch = (s.body, s.orelse) if ctx == "if" else (s.orelse, s.body)
@@ -794,6 +864,29 @@ class Inliner:
         blk[idx:idx + 1] = [bind] + cbody
         return body
 
+    def expand_context_manager(self, w: ast.With, body, call):
+        """@contextmanager helper:  PRE; [try:] yield V [finally: POST]; REST   used as   with helper(..) as T: BODY
+        ->  PRE; T = V; [try:] BODY [finally: POST]; REST      (an exception in BODY is raised at the yield: exactly these semantics)"""
+        ys = [n for st in body for n in ast.walk(st) if isinstance(n, (ast.Yield, ast.YieldFrom))]
+        if len(ys) != 1 or isinstance(ys[0], ast.YieldFrom) or _has(body, ast.Return):
+            raise _Refuse("context manager helper does not have exactly one yield (or returns)")
+        y = ys[0]
+        chain = self._chain_to(body, y)
+        if chain is None:
+            raise _Refuse("yield not in statement position")
+        # the yield sits at the helper's top level or directly in the body of top-level try/finally blocks - not in loops or ifs
+        for blk, idx, owner in chain:
+            if owner is not None and not isinstance(owner, ast.Try):
+                raise _Refuse("yield of the context manager inside a loop / condition")
+        blk, idx, _ = chain[-1]
+        bind = []
+        tgt = w.items[0].optional_vars
+        if tgt is not None:
+            v = y.value if y.value is not None else self._at(ast.Constant(value=None), w)
+            bind = [self._at(ast.Assign(targets=[self._store(tgt)], value=v), w)]
+        blk[idx:idx + 1] = bind + w.body
+        return body
+
     def _store(self, t):
         t = copy.deepcopy(t)
         for n in ast.walk(t):
@@ -866,7 +959,7 @@ def inline_modules(p0, modules: dict):
         dead = []
         for owner in [m.tree] + [n for n in ast.walk(m.tree) if isinstance(n, ast.ClassDef)]:
             for st_ in owner.body:
-                if isinstance(st_, ast.FunctionDef) and st_.name.startswith("_") and not st_.name.endswith("__") and refs.get(st_.name, 0) == 0 and all(isinstance(d, ast.Name) and d.id in ("staticmethod", "classmethod") for d in st_.decorator_list):
+                if isinstance(st_, ast.FunctionDef) and _is_candidate_name(st_.name) and refs.get(st_.name, 0) == 0 and all((isinstance(d, ast.Name) and d.id in ("staticmethod", "classmethod", "contextmanager")) or ast.unparse(d) == "contextlib.contextmanager" for d in st_.decorator_list):
                     dead.append((st_.lineno, st_.col_offset))
                     st_._dead_helper = True  # type: ignore[attr-defined]
         if dead:
